@@ -22,8 +22,11 @@ TrReset == IsEvent("reset") /\
 
 TrSessionStart == IsEvent("UpSessionStart") /\ SessionStart(R.sess, R.salt)
 TrFileStart == IsEvent("UpFileStart") /\ FileStart(R.sess, R.f, R.content)
-TrDecision == IsEvent("DdDecision") /\ Decision(R.actor, R.kind, R.idx, R.n, R.bytes)
-TrCut == IsEvent("DdCut") /\ UNCHANGED vars
+TrDecision == IsEvent("DdDecision") /\
+              Decision(R.actor, R.kind, R.idx, R.n, R.bytes,
+                       IF R.kind = "new" THEN [local |-> FALSE, x |-> 0, lo |-> 0, hi |-> 0]
+                       ELSE [local |-> R.local, x |-> R.x, lo |-> R.lo, hi |-> R.hi])
+TrCut == IsEvent("DdCut") /\ Cut(R.actor)
 TrCompletion == IsEvent("UpCompletion") /\ UNCHANGED vars
 TrPutStart == IsEvent("UpPutStart") /\ PutStart(R.sess, R.x, R.xref, R.chunks, R.ok)
 TrPutEnd == IsEvent("UpPutEnd") /\ PutEnd(R.sess, R.x, R.res, R.ret)
